@@ -139,6 +139,36 @@ impl ABundle {
     }
 }
 
+/// a bundle of `n` small spends (for the per-block spend limit and summation strata)
+pub fn many_spends(rng: &mut Rng, n: usize) -> ABundle {
+    let mut spends = vec![];
+    for i in 0..n {
+        let k = rng.usize(NUM_PUZZLES);
+        let ph = puzzle(k).tree_hash();
+        let parent = sha256(&[b"many", &(i as u64).to_be_bytes(), &rng.bytes(4)]);
+        let amount = if rng.chance(1, 4) { u64::MAX - rng.below(4) } else { rng.below(1000) };
+        let mut conds = vec![];
+        if rng.chance(1, 3) {
+            let out = rng.below(amount.max(1));
+            conds.push(cond(&[51], &[Sx::atom(&rng.bytes32()), int_atom(out)]));
+        }
+        spends.push(ASpend {
+            parent,
+            puzzle_idx: k,
+            puzzle_hash: ph,
+            amount,
+            amount_atom: int_atom(amount),
+            parent_atom: Sx::atom(&parent),
+            puzzle_hash_atom: Sx::atom(&ph),
+            conds,
+            cond_term: Sx::nil(),
+            spend_ext: Sx::nil(),
+            fields: 4,
+        });
+    }
+    ABundle { spends, spend_term: Sx::nil(), outer_ext: Sx::nil(), tags: vec![format!("many-spends:{n}")] }
+}
+
 pub const AMOUNT_POOL: &[u64] = &[
     0, 1, 2, 3, 0x7f, 0x80, 0xff, 0x100, 1000, 1001, 0x7fff, 0x8000, 0xffff, 0x7f_ffff, 0x80_0000,
     0x7fff_ffff, 0x8000_0000, 0xffff_ffff, 0x1_0000_0000, 1_000_000_000_001, 0x7f_ffff_ffff,
